@@ -46,7 +46,7 @@ Lemma step_mode s st : stuck s = false ->
 Proof.
   intros Hs. unfold step. rewrite Hs.
   destruct st as [l|n e|l|l|c f|op ops|op]; cbn [is_bits]; try reflexivity.
-  - destruct (eval_top (env_of s) e) as [e0 r0|]; [destruct (mentions n e0)|]; reflexivity.
+  - destruct (eval_top (env_of s) e) as [e0 r0|]; [destruct (equ_reaches _ _ n e0)|]; reflexivity.
   - destruct c; try reflexivity.
     + destruct (bits_of f); reflexivity.
     + destruct f; reflexivity.
